@@ -601,6 +601,7 @@ def check_C04(ctx):
         sany(ctx, m)
     cases = os.path.join(ctx.work, "pathcodec.ndjson")
     pathcodec_cases(ctx, 6 if thorough else 5, "full", cases)
+    pathcodec_cases(ctx, 5 if thorough else 4, "degree", cases)
     # the pinned encoder writes `<letter>,` for a typed last control point: the decoder model rejects that
     pathcodec_cases(ctx, 4, "full", None, fixed=False, force=False, expect_violation=True, inv=["Accepted"])
     summ = harness(ctx, ["pathcodec", "replay", "--prop", "C04"], cases_file=cases, name="pathcodec", timeout=3600)
@@ -649,6 +650,7 @@ def check_C02(ctx):
     # (1) slider paths
     cases = os.path.join(ctx.work, "pathcodec.ndjson")
     pathcodec_cases(ctx, 6 if thorough else 5, "full", cases)
+    pathcodec_cases(ctx, 6 if thorough else 5, "degree", cases)          # b-splines of different degree next to each other
     summ = harness(ctx, ["pathcodec", "replay", "--prop", "C02"], cases_file=cases, name="pathcodec", timeout=3600)
     report_mismatches(ctx, summ, "a slider path does not survive decode -> encode -> decode (outside the listed shapes)")
     # (2) hit samples (model level: names and banks survive for every bank info x sound x sample point x mania)
